@@ -22,7 +22,7 @@ import propkit
 import vlib
 
 MANIFEST = {
-  "text": "proof: over R. (1) nearest_fold: the Gallina copy of kernel _ray's running minimum (init MJ_MAXVAL/-1, negative distance -> MJ_MAXVAL, strict `<` update, -1 iff nothing below MJ_MAXVAL) returns, for geom lists of any length, the minimum distance among geoms with 0 <= d < 1e10 and the LOWEST geom id attaining it, (-1,-1,0) if none; the result is independent of the block size (tile_argmin = first minimum); _ray_bvh's / cast_ray's rule returns the same minimum for any visiting order; the triple equals mj_ray's rule when no distance reaches 1e10. (2) eliminate_rule on the translated _ray_eliminate = the property's sentence. (3) the kernel model over the translated _ray_geom_mesh returns the nearest non-eliminated hit. (4) translated _ray_quad / ray_sphere / ray_plane: returned x >= 0 lies on the surface, is the smallest non-negative root, normal is the outward unit normal / plane normal; -1 only below the 1e-15 discriminant threshold or without a root. (5) bvh_equals_brute_partial: abstract tree traversal that prunes only boxes missed or entered no nearer than the current best returns the brute-force minimum (Warp's BVH builtins are not in /repo: abstract model). tested only: float32 rounding; ray_capsule/ellipsoid/cylinder/box/mesh/hfield geometry (T-validation + mj_ray oracle); that the real scene-BVH boxes cover the geoms (BVH-vs-brute oracle: several recorded defects)",
+  "text": "proof: over R. (1) nearest_fold: the Gallina copy of kernel _ray's running minimum (init MJ_MAXVAL/-1, negative distance -> MJ_MAXVAL, strict `<` update, -1 iff nothing below MJ_MAXVAL) returns, for geom lists of any length, the minimum distance among geoms with 0 <= d < 1e10 and the LOWEST geom id attaining it, (-1,-1,0) if none; the result is independent of the block size (tile_argmin = first minimum); _ray_bvh's / cast_ray's rule returns the same minimum for any visiting order; the triple equals mj_ray's rule when no distance reaches 1e10. (2) eliminate_rule on the translated _ray_eliminate = the property's sentence. (3) the kernel model over the translated _ray_geom_mesh returns the nearest non-eliminated hit. (4) translated _ray_quad / ray_sphere / ray_plane: returned x >= 0 lies on the surface, is the smallest non-negative root, normal is the outward unit normal / plane normal; -1 only below the 1e-15 discriminant threshold or without a root. (5) bvh_equals_brute_partial: abstract tree traversal that prunes only boxes missed or entered no nearer than the current best returns the brute-force minimum (Warp's BVH builtins are not in /repo: abstract model). (6) _ray_bvh's primitive->geom map with the per-world stride ngeom+nflexgeom (repaired in /repo ae9ede3) denotes exactly the enabled geoms in every world; _orthogonal_basis of the normalised direction (repaired in 8617230) is an orthonormal pair orthogonal to any non-zero direction; ray_ellipsoid in the local frame (partial). tested only: float32 rounding; ray_capsule/cylinder/box/mesh/hfield geometry (T-validation + mj_ray oracle); that the real scene-BVH boxes cover the geoms (BVH-vs-brute oracle: open recorded defects for hfield, infinite planes, mesh back faces, geom groups)",
   "note": "trusted: Coq kernel; translator bin/translate.py (validated each run against the compiled Warp functions); Model/Ray.v hand model of the two kernels (validated each run against mjw.rays on random scenes inside Coq); tile_argmin modelled as first-minimum (CPU block size is 1); real-number axioms of Coq's Reals; mujoco.mj_ray as the differential oracle",
   "technique": "Rocq proof over hand model + functions machine-translated from the source (T), translation validation, kernel correspondence inside Coq, differential oracle against MuJoCo and BVH-vs-brute-force oracle",
   "engine": "coq",
@@ -342,6 +342,54 @@ def kernel_correspondence(res, tr, nscenes, nrays):
   return bad, verdicts
 
 
+def flex_stride_correspondence(res, tr, nscenes, nrays, nworld=3):
+  """Model/Ray.v ray_bvh_kernel_prims (primitive -> geom map with stride ngeom + nflexgeom, flex primitives
+  skipped) over the translated _ray_geom_mesh vs the real _ray_bvh kernel on scenes WITH a flex, three worlds."""
+  import tvalid
+
+  import mujoco_warp as mjw
+
+  sig = tr.signatures().get("_ray_geom_mesh")
+  if sig is None:
+    return [{"error": "_ray_geom_mesh is not translated"}]
+  rng = np.random.default_rng(vlib.seed() + 3404)
+  nohit = "Definition nohit (r : float * Z * list float) : list float := let '(d, g, n) := r in if ((d <? 0) || (0x1.0p+33 <? d))%float then [-1; -1; 0; 0; 0]%float else d :: f_ofZ g :: n.\n"
+  defs, lines, meta = [G.COQ_ARRAY_DEFS + nohit], [], []
+  for s in range(nscenes):
+    flex = (f'<flexcomp name="f" type="grid" count="{int(rng.integers(2, 4))} {int(rng.integers(2, 4))} 1" spacing="0.2 0.2 0.2" pos="3 0 0" radius="0.01" dim="2">'
+            '<edge equality="false"/></flexcomp>')  # fmt: skip
+    xml = G.scene(rng, ngeom=(2, 5), types=G.PRIMS, plane_infinite=0.3, alpha0=0.0).replace("</worldbody>", flex + "</worldbody>")
+    m, ds, mm, dd = build(xml, rng, nworld=nworld)
+    rc = mjw.create_render_context(m, nworld=nworld, cam_res=(2, 2), enabled_geom_groups=[0, 1, 2, 3, 4, 5])
+    mjw.refit_bvh(mm, dd, rc)
+    arrs = model_arrays(mm, dd)
+    sdefs, names = scene_defs(sig, f"f{s}", arrs)
+    defs.append(sdefs + f"\nDefinition f{s}_enabled := az {G.zl(rc.enabled_geom_ids.numpy())}.")
+    n, f = int(rc.bvh_ngeom), int(rc.bvh_nflexgeom)
+    pnt, vec = G.random_rays(rng, nworld * nrays, centers=ds[0].geom_xpos)
+    pnt, vec = pnt.reshape(nworld, nrays, 3), vec.reshape(nworld, nrays, 3)
+    bex = np.full(nrays, -1)
+    dist, gid, nrm = cast(mm, dd, pnt, vec, [-1] * 6, True, bex, rc)
+    for w in range(nworld):
+      prims = G.zl([w * (n + f) + k for k in range(n + f)])
+      for r in range(nrays):
+        cand = cand_term(sig, names, arrs, w, pnt[w, r], vec[w, r], [-1] * 6, True, -1)
+        exp = [dist[w, r], gid[w, r]] + nrm[w, r].tolist()
+        lines.append(f"tv3 {vlib.fhex(3e-4)} (fun Sc => nohit (@ray_bvh_kernel_prims float Sc {cand} ({n})%Z ({f})%Z ({w})%Z f{s}_enabled {prims})) {vlib.flist(exp)}")
+        meta.append(dict(kernel="_ray_bvh+flex", xml=xml, world=w, nflexgeom=f, pnt=pnt[w, r].tolist(), vec=vec[w, r].tolist(), impl=exp))
+  verdicts = tvalid.run_cases("C34f", ["Model.Ray", "Gen.T_ray"], lines, chunk=60, extra_defs="\n".join(defs))
+  bad = []
+  for md, v in zip(meta, verdicts):
+    if v == 0:
+      res.nontrivial(("kf", md["xml"][:60], md["world"], tuple(md["pnt"])))
+    elif v == 2 and len(bad) < 10:
+      bad.append(md)
+  res.count(len(verdicts))
+  res.extra["flex_stride_correspondence"] = {"cases": len(verdicts), "agree": verdicts.count(0), "discarded": verdicts.count(1), "disagree": verdicts.count(2),
+                                             "hits": sum(1 for md in meta if md["impl"][1] >= 0), "hits_world_ge_1": sum(1 for md in meta if md["impl"][1] >= 0 and md["world"] >= 1)}  # fmt: skip
+  return bad
+
+
 # ---------------------------------------------------------------- oracle 1: mjw.ray / rays vs mujoco.mj_ray
 def oracle_mj(res, nscenes, nrays, scales, types, tag):
   """random scenes; returns list of failing cases (dicts).  With `scales` == (1.0,) and every type this is
@@ -393,7 +441,7 @@ def oracle_bvh(res, nscenes, nrays):
   rng = np.random.default_rng(vlib.seed() + 3403)
   fails, ncmp, ndisc = [], 0, 0
   for s in range(nscenes):
-    xml = G.scene(rng, types=G.PRIMS + ("mesh",), plane_infinite=0.3)
+    xml = G.scene(rng, types=G.PRIMS + ("mesh",), plane_infinite=0.3, meshes=("cube", "octa", "pyr"))
     m, ds, mm, dd = build(xml, rng)
     rc = mjw.create_render_context(m, nworld=2, cam_res=(2, 2), enabled_geom_groups=[0, 1, 2, 3, 4, 5])
     mjw.refit_bvh(mm, dd, rc)
@@ -577,13 +625,16 @@ def run(res):
     lap("T-validation")
     kbad, _ = kernel_correspondence(res, tr, 9 if quick else 60, 6 if quick else 10)
     res.obligation("kernel correspondence: Model/Ray.v ray_kernel / ray_bvh_kernel over translated _ray_geom_mesh vs mjw.rays", not kbad, f"{len(kbad)} disagreements")
+    fbad = flex_stride_correspondence(res, tr, 3 if quick else 20, 4 if quick else 8)
+    res.obligation("kernel correspondence: ray_bvh_kernel_prims (flex stride) vs mjw.rays(rc=...) on flex scenes, 3 worlds", not fbad, f"{len(fbad)} disagreements")
+    kbad = kbad + fbad
     lap("kernel correspondence")
   found = False
   # the property itself: unit directions, every geom type
   f1 = oracle_mj(res, 40 if quick else 400, 30, (1.0,), G.PRIMS + ("mesh", "hfield"), "unit")
   # any |vec| on primitives (mj_ray semantics: distance in units of |vec|)
   f2 = oracle_mj(res, 15 if quick else 150, 30, (0.5, 3.0, 0.01, 100.0), G.PRIMS, "scaled-primitives")
-  # any |vec| on mesh / hfield: recorded defect
+  # any |vec| on mesh / hfield (repaired in /repo 8617230; a relapse is reported under the original key)
   f3 = oracle_mj(res, 6 if quick else 60, 30, (0.5, 3.0), ("mesh", "hfield", "sphere"), "nonunit")
   seen = set()
   for f in f1 + f2 + f3:
